@@ -121,12 +121,8 @@ class ClassificationLookupVlr(BaseKnownVLR):
 
     def parse_record_data(self, record_data: bytes) -> None:
         for class_id, desc in struct.iter_unpack("<B15s", record_data):
-            # index using desc[i:i+1], because desc[i] gives an int, and we want a byte
-            description = b"".join(
-                desc[i : i + 1]
-                for i in range(len(desc))
-                if desc[i : i + 1].isalnum() or desc[i : i + 1] == b" "
-            ).decode()
+            # the description is null padded
+            description = desc.split(NULL_BYTE)[0].decode()
             self.lookups[class_id] = description
 
     def record_data_bytes(self) -> bytes:
